@@ -3,6 +3,7 @@ package graph
 import (
 	"context"
 	"errors"
+	"fmt"
 
 	"github.com/compose-spec/compose-go/v2/types"
 )
@@ -107,7 +108,8 @@ func VerifC13Traversal() {
 	entered := map[string]int{}
 	exited := map[string]bool{}
 	running, maxRunning := 0, 0
-	boom := errors.New("boom")
+	// the failing visitor's error: any error value, including the ones the context package uses
+	boom := []error{errors.New("boom"), context.Canceled, fmt.Errorf("visit interrupted: %w", context.Canceled), context.DeadlineExceeded}[vrtChoice("errorKind", vrtParam("ERRKINDS", 1))]
 	// CANCEL=1: the caller's own context is cancelled by the failing visitor just before it fails (a caller giving up
 	// while a visit reports its error): the walk still returns that visitor's error
 	callerCtx, cancel := context.WithCancel(context.Background())
@@ -164,7 +166,9 @@ func VerifC13Roots() {
 	c13Dangling(p, vrtChoice("dangling", 4))
 	vrtMapOrder([]int{0, 3, 4}[vrtChoice("maporder", 3)])
 	// one to three roots, in any order the caller may list them
-	rootLists := [][]string{{"a"}, {"b"}, {"c"}, {"a", "b"}, {"b", "a"}, {"a", "c"}, {"c", "a"}, {"b", "c"}, {"c", "b"}, {"a", "b", "c"}, {"c", "b", "a"}, {"b", "c", "a"}}
+	rootLists := [][]string{{"a"}, {"b"}, {"c"}, {"a", "b"}, {"b", "a"}, {"a", "c"}, {"c", "a"}, {"b", "c"}, {"c", "b"}, {"a", "b", "c"}, {"c", "b", "a"}, {"b", "c", "a"},
+		// a root named more than once, and a name no service has: as many (or more) entries as there are services
+		{"b", "b", "b"}, {"c", "c", "c", "c"}, {"a", "zz", "zz"}}
 	roots := rootLists[vrtChoice("roots", len(rootLists))]
 	vrtSetPreemptions(0)
 	// services that transitively depend on root (plus root itself)
